@@ -145,6 +145,12 @@ func (p *Parser) ParseReader(r io.Reader, args ...any) (data Node, err error) {
 	eof := false
 	var cnt int
 	cnt, err = r.Read(buf)
+	// A BOM can be split over more than one read.
+	for 0 < cnt && cnt < 4 && err == nil && buf[0] == 0xEF {
+		var n int
+		n, err = r.Read(buf[cnt:])
+		cnt += n
+	}
 	buf = buf[:cnt]
 	p.mode = valueMap
 	if err != nil {
